@@ -565,6 +565,38 @@ def _o_scal0(P, T, rng):
     P['power']['scaling'] = 0.0
 
 
+def _drop_inner_position(P, rng):
+    """Leave one position that is neither the centre nor the last one
+    unassigned (a hole in the middle of the position list)."""
+    from vmon import gen as _g
+    ks = sorted(_g.pos_index0(q['ring'], q['pos']) for q in P['positions'])
+    cand = [k for k in ks if 0 < k < ks[-1]]
+    if not cand:
+        return
+    k = cand[int(rng.integers(len(cand)))]
+    P['positions'] = [q for q in P['positions']
+                      if _g.pos_index0(q['ring'], q['pos']) != k]
+    P['power']['asm'].pop(str(k), None)
+
+
+@option('core_with_hole_total_power', needs=('core2',))
+def _o_hole_totp(P, T, rng):
+    _drop_inner_position(P, rng)
+    tot = sum(s['total'] for s in P['power']['asm'].values())
+    P['power']['total_power'] = float(tot * rng.uniform(0.5, 1.5))
+
+
+@option('core_with_hole_power_scaling', needs=('core2',))
+def _o_hole_scal(P, T, rng):
+    _drop_inner_position(P, rng)
+    P['power']['scaling'] = float(rng.uniform(0.3, 1.7))
+
+
+@option('core_with_hole', needs=('core2',))
+def _o_hole(P, T, rng):
+    _drop_inner_position(P, rng)
+
+
 @option('gravity_se2geo')
 def _o_grav(P, T, rng):
     P['setup']['include_gravity_head_loss'] = True
@@ -1009,6 +1041,42 @@ def _m_fgap(P, T, rng):
     t = P['types'][T]
     t['FuelModel']['gap_thickness'] = 0.5 * t['pin_diameter']
     t['FuelModel']['gap_material'] = 'sodium'
+
+
+@mut('fuel_gap_gt_clad_inner_radius:legacy_key', 'FuelModel/fcgap_thickness',
+     'fuel-clad gap larger than clad inner radius (legacy key)', 'reject',
+     needs=('fuel',))
+def _m_fgap_legacy(P, T, rng):
+    t = P['types'][T]
+    t['FuelModel'].pop('gap_thickness', None)
+    t['FuelModel']['fcgap_thickness'] = 0.5 * t['pin_diameter']
+    t['FuelModel']['gap_material'] = 'sodium'
+
+
+def _pin_model_with_gap(P, T, key):
+    t = P['types'][T]
+    t.pop('FuelModel', None)
+    P['materials']['pin_own'] = {'thermal_conductivity': [12.0]}
+    t['PinModel'] = {'clad_material': 'ht9', 'r_frac': [0.0, 0.5],
+                     'pin_material': ['pin_own', 'pin_own'],
+                     'gap_material': 'sodium',
+                     key: 0.5 * t['pin_diameter']}
+    for sp in P['power']['asm'].values():
+        sp['total'] *= 0.1
+
+
+@mut('pin_gap_gt_clad_inner_radius', 'PinModel/gap_thickness',
+     'pellet-clad gap larger than clad inner radius', 'reject',
+     needs=('nolf',))
+def _m_pgap(P, T, rng):
+    _pin_model_with_gap(P, T, 'gap_thickness')
+
+
+@mut('pin_gap_gt_clad_inner_radius:legacy_key', 'PinModel/fcgap_thickness',
+     'pellet-clad gap larger than clad inner radius (legacy key)', 'reject',
+     needs=('nolf',))
+def _m_pgap_legacy(P, T, rng):
+    _pin_model_with_gap(P, T, 'fcgap_thickness')
 
 
 @mut('num_rings=one', 'Assembly/num_rings', 'single pin', 'safe',
